@@ -8,6 +8,7 @@ import (
 	"fmt"
 	"os"
 	"runtime"
+	"runtime/debug"
 	"sort"
 	"strings"
 	"testing"
@@ -187,6 +188,12 @@ func WorkerMain(t *testing.T, handlers map[string]Handler) {
 			emit(res)
 			w.Flush()
 		}
+		// The Go scheduler is deterministic on one P as long as nothing preempts
+		// a goroutine: a GC cycle does (stop-the-world moves the running goroutine
+		// to the back of the queue), so the collector only runs between runs.
+		runtime.GC()
+		old := debug.SetGCPercent(-1)
+		defer debug.SetGCPercent(old)
 		leakExit = func(r *Result) {
 			// A bubble that ends with blocked goroutines poisons the process
 			// (the next bubble hangs). Flush and let the runner start a fresh
